@@ -6,7 +6,7 @@ from flosim.gen import cfg_with
 class C20(FloCheck):
     pid = "C20"
     design_ref = "§6 C20"
-    cfg = cfg_with(p_marker=0.6, p_env=1.0, p_poke=0.45, naux=(0, 1), p_aux=0.1, p_caux=0.05, nslaves=(0, 0), p_fiat=0, p_bid=0.05, p_go=0.85, nframes=(2, 5))
+    cfg = cfg_with(p_marker=0.6, p_env=1.0, p_poke=0.45, naux=(0, 1), p_aux=0.1, p_caux=0.05, nslaves=(0, 0), p_fiat=0, p_bid=0.05, p_go=0.85, nframes=(2, 5), p_env_field=0.25)
     rule = ("generated reader framers with 'go ... if share is updated | changed [in frame [f]] [by m]' (shared 'by' marks across "
             "frames), writer framers and an environment framer placed before and after the reader in the order, writing the "
             "same or different values at drawn ticks (same tick as an entry, same tick as a taken guarded transition, later "
